@@ -14,6 +14,8 @@ Correspondence with the Rust code:
 * `readFull`    — always the hot store;  `readPartial` — hot iff `usesHot`;  listings come from the cold store.
 * `repairKey`   — per id of a file type: only in hot ⇒ copied to cold; in cold and (absent from hot or of another size
                   there) ⇒ copied to hot; same size in both ⇒ left alone.
+* `treePacks`/`packKeys`/`repairPacks`/`repairRepo` — `get_tree_packs` (over `IndexFile::all_packs`: `packs` AND
+                  `packs_to_delete`), the relevance filter of `repair_hotcold_packs`, and the whole `repair hotcold`.
 -/
 import Rustic.Model.Backends
 namespace Rustic.HotCold
@@ -83,5 +85,40 @@ def repairKey (s : HC) (k : Key) : HC :=
     | none => s
 
 def repair (s : HC) (keys : List Key) : HC := keys.foldl repairKey s
+
+/-! #### `repair_hotcold_packs`: which pack files are repaired
+
+`get_tree_packs` streams every index file and collects the ids of `index.all_packs()` — the packs listed under `packs`
+**and** those listed under `packs_to_delete` (marked by a prune without `instant_delete`, still present in both stores
+until `keep_delete` has passed) — whose `blob_type()` (type of the first blob) is `Tree`.
+`correct_missing_files(Pack, |id| tree_packs.contains(id))` then treats exactly the ids listed by the hot or the cold
+store that pass this filter (`listed`); all other pack files are left alone. -/
+
+structure IdxPack where
+  id : Name
+  isTree : Bool
+  deriving DecidableEq, Repr
+
+structure IndexFileM where
+  packs : List IdxPack
+  packsToDelete : List IdxPack
+  deriving Repr
+
+/-- `IndexFile::all_packs` -/
+def IndexFileM.allPacks (f : IndexFileM) : List IdxPack := f.packs ++ f.packsToDelete
+
+/-- `get_tree_packs` -/
+def treePacks (idx : List IndexFileM) : List Name :=
+  ((idx.flatMap IndexFileM.allPacks).filter (fun p => p.isTree)).map (fun p => p.id)
+
+/-- the keys `repair_hotcold_packs` works on: listed pack ids that pass the relevance filter -/
+def packKeys (idx : List IndexFileM) (listed : List Name) : List Key :=
+  (listed.filter (fun id => (treePacks idx).contains id)).map (fun id => (FileType.pack, id))
+
+def repairPacks (s : HC) (idx : List IndexFileM) (listed : List Name) : HC := repair s (packKeys idx listed)
+
+/-- `repair hotcold`: `repair_hotcold_except_packs` on the listed ids of the other file types, then `repair_hotcold_packs` -/
+def repairRepo (s : HC) (keys : List Key) (idx : List IndexFileM) (listed : List Name) : HC :=
+  repairPacks (repair s keys) idx listed
 
 end Rustic.HotCold
